@@ -14,18 +14,24 @@ use std::sync::Mutex;
 
 /// Forms an n-node cluster by sequential joins; returns None if that did not end in the state C07 requires.
 pub fn form_cluster(n: usize, seed0: u64, tag: &str) -> Option<Cluster> {
+    let ids: Vec<u128> = (0..n).map(|i| 100 * (i as u128 + 1)).collect();
+    form_cluster_with_ids(&ids, seed0, tag)
+}
+
+/// Nodes are started one after the other (quiet in between) with the given process ids (lower = older): with ids that are
+/// not increasing, a later node is older than the current primary and takes over from it while it stays in the cluster.
+pub fn form_cluster_with_ids(ids: &[u128], seed0: u64, tag: &str) -> Option<Cluster> {
+    let n = ids.len();
     let mut c = Cluster::new(n, seed0, tag);
     let all: Vec<usize> = (0..n).collect();
-    let mut ids = vec![];
     for i in 0..n {
-        ids.push(100 * (i as u128 + 1));
         c.start_node(i, ids[i], &all);
         if !matches!(c.run_until_quiet(), Outcome::Quiet(_)) {
             c.shutdown();
             return None;
         }
     }
-    if crate::c07::judge(&c, &ids).is_some() || !c.panics().is_empty() {
+    if crate::c07::judge(&c, ids).is_some() || !c.panics().is_empty() {
         c.shutdown();
         return None;
     }
